@@ -86,6 +86,12 @@ pub struct ProductCase {
     /// a_i = a[i] / 2^shift_a, b_i = b[i] / 2^shift_b  (dyadic rationals; 0 = integers)
     shift_a: u32,
     shift_b: u32,
+    /// additional uniform scaling of the operands by 2^-scale_a, 2^-scale_b (0..60): the property
+    /// bounds the error relative to the operands' norms, so it must hold at every scale
+    #[serde(default)]
+    scale_a: u32,
+    #[serde(default)]
+    scale_b: u32,
 }
 
 pub struct Product;
@@ -112,18 +118,20 @@ impl Sub for Product {
     }
     fn strategy(&self, _env: &Env) -> BoxedStrategy<ProductCase> {
         let logn = prop_oneof![6 => 1u32..=8, 2 => Just(9u32), 2 => Just(10u32)];
-        (logn, prop_oneof![3 => Just(0u32), 1 => Just(20u32), 1 => 1u32..=20], prop_oneof![3 => Just(0u32), 1 => Just(20u32)])
-            .prop_flat_map(|(l, sa, sb)| (operand(1 << l, (1i64 << 14) << sa), operand(1 << l, (1i64 << 10) << sb), Just(sa), Just(sb)))
-            .prop_map(|(a, b, shift_a, shift_b)| ProductCase { a, b, shift_a, shift_b })
+        let scale = prop_oneof![5 => Just(0u32), 1 => 1u32..=60, 1 => Just(40u32)];
+        (logn, prop_oneof![3 => Just(0u32), 1 => Just(20u32), 1 => 1u32..=20], prop_oneof![3 => Just(0u32), 1 => Just(20u32)], scale.clone(), scale)
+            .prop_flat_map(|(l, sa, sb, ca, cb)| (operand(1 << l, (1i64 << 14) << sa), operand(1 << l, (1i64 << 10) << sb), Just(sa), Just(sb), Just(ca), Just(cb)))
+            .prop_map(|(a, b, shift_a, shift_b, scale_a, scale_b)| ProductCase { a, b, shift_a, shift_b, scale_a, scale_b })
             .boxed()
     }
     fn check(&self, c: &ProductCase, st: &mut Stats) -> Result<(), Fail> {
         let n = c.a.len();
-        if n < 2 || !n.is_power_of_two() || n > 1024 || c.b.len() != n || c.shift_a > 20 || c.shift_b > 20 {
+        if n < 2 || !n.is_power_of_two() || n > 1024 || c.b.len() != n || c.shift_a > 20 || c.shift_b > 20 || c.scale_a > 60 || c.scale_b > 60 {
             return Ok(());
         }
-        let sa = (1u64 << c.shift_a) as f64;
-        let sb = (1u64 << c.shift_b) as f64;
+        // divisors are exact powers of two, so the operands are exactly representable
+        let sa = 2f64.powi((c.shift_a + c.scale_a) as i32);
+        let sb = 2f64.powi((c.shift_b + c.scale_b) as i32);
         if c.a.iter().any(|x| x.abs() > (1i64 << 14) << c.shift_a) || c.b.iter().any(|x| x.abs() > (1i64 << 10) << c.shift_b) {
             return Ok(()); // outside the magnitude range the property states
         }
@@ -170,7 +178,7 @@ impl Sub for Product {
         ensure!(d <= TOL * nf.max(f64::MIN_POSITIVE), "fft:split", "n = {}: split(fft(a)) differs from (fft(a_even), fft(a_odd)) by {}", n, d);
         let at_limit = c.a.iter().any(|x| x.abs() == (1i64 << 14) << c.shift_a) || c.b.iter().any(|x| x.abs() == (1i64 << 10) << c.shift_b);
         if n >= 64 || at_limit {
-            st.nontrivial(&(&c.a, &c.b, c.shift_a, c.shift_b));
+            st.nontrivial(&(&c.a, &c.b, c.shift_a, c.shift_b, c.scale_a, c.scale_b));
         }
         if at_limit {
             st.count("operand_at_magnitude_limit");
@@ -178,14 +186,17 @@ impl Sub for Product {
         if c.shift_a > 0 || c.shift_b > 0 {
             st.count("dyadic_rational_operands");
         }
+        if c.scale_a > 0 || c.scale_b > 0 {
+            st.count("uniformly_scaled_down_operands");
+        }
         st.count(&format!("products_n{}", n));
-        st.sample(if n >= 512 { "product_large" } else { "product_small" }, || json!({"n": n, "shift_a": c.shift_a, "shift_b": c.shift_b, "a_head": c.a.iter().take(4).collect::<Vec<_>>(), "b_head": c.b.iter().take(4).collect::<Vec<_>>()}));
+        st.sample(if n >= 512 { "product_large" } else { "product_small" }, || json!({"n": n, "shift_a": c.shift_a, "shift_b": c.shift_b, "scale_a": c.scale_a, "scale_b": c.scale_b, "a_head": c.a.iter().take(4).collect::<Vec<_>>(), "b_head": c.b.iter().take(4).collect::<Vec<_>>()}));
         Ok(())
     }
 }
 
 const META: Meta = Meta {
-    rule: "complete enumeration of all basis vectors X^i for n = 2..1024 (every evaluation point fft(X)[k] within 2^-30 of e^(i pi m/n) for a distinct odd m computed by the harness with libm, fft(X^i)[k] within 2^-30 of its i-th power, round trip); proptest operands for n = 2..1024: a with |a_i| <= 2^14, b with |b_i| <= 2^10, integers or dyadic rationals k/2^s (s <= 20), uniform / constant / alternating / single spike at the magnitude limit / small; oracle = exact negacyclic product in i128 converted to f64; tolerance = the property's 2^-30 relative to the operands' norms. Non-trivial = n >= 64 or an operand at the magnitude limit (hash-distinct); basis vectors are distinct by construction.",
+    rule: "complete enumeration of all basis vectors X^i for n = 2..1024 (every evaluation point fft(X)[k] within 2^-30 of e^(i pi m/n) for a distinct odd m computed by the harness with libm, fft(X^i)[k] within 2^-30 of its i-th power, round trip); proptest operands for n = 2..1024: a with |a_i| <= 2^14, b with |b_i| <= 2^10, integers or dyadic rationals k/2^s (s <= 20), optionally scaled down uniformly by 2^-1..2^-60 (the bound is relative to the operands' norms, so it must hold at every scale), uniform / constant / alternating / single spike at the magnitude limit / small; oracle = exact negacyclic product in i128 converted to f64; tolerance = the property's 2^-30 relative to the operands' norms. Non-trivial = n >= 64 or an operand at the magnitude limit (hash-distinct); basis vectors are distinct by construction.",
     assumptions: &[
         "oracle: exact integer product (i128) and libm sin/cos; tolerance 2^-30 as the property states (the implementation achieves about 1e-15, so honest rounding cannot trip it)",
     ],
